@@ -49,7 +49,7 @@ func (m mutation) String() string {
 	return m.Kind + ": " + m.S
 }
 
-var lenValues = []int64{1 << 7, 1 << 15, 1 << 31, 1<<62 - 1, -1}
+var lenValues = []int64{1 << 7, 1 << 15, 1 << 31, 1<<62 - 1, 1<<63 - 1, -1}
 
 func clone(b []byte) []byte { return append(make([]byte, 0, len(b)), b...) }
 
@@ -92,7 +92,7 @@ func five(b byte) [5]byte { return [5]byte{b + 1, b - 1, b ^ 0x80, 0x00, 0xFF} }
 // nonTrivial: the input still carries a valid signature and version (field
 // decoding is reached); for DecodeObject a known type tag.
 func nonTrivial(entry int, d []byte) bool {
-	if entry == entObject {
+	if entry == entObject || entry == entObjectPlain {
 		return len(d) >= 1 && (d[0] <= 14 || d[0] == 255)
 	}
 	return len(d) > 6 && d[0] == 0 && d[1] == 0x75 && d[2] == 0x47 && d[3] == 0x4F && d[4] == 0 && (d[5] == 1 || d[5] == 2)
@@ -136,7 +136,7 @@ func (r *runner) handle(j job, o outcome) {
 	case stInconcl:
 		r.rec.Inconcl(o.Sig)
 	case stGobSlop:
-		r.rec.Exclude("allocation above the bound is encoding/gob's own read buffer (<10 MiB, internal/saferio)")
+		r.rec.Exclude("allocation above the bound made inside encoding/gob (its 10 MiB read/slice chunks), not by the decoder")
 	case stPanic, stAlloc, stDeath:
 		what := o.What + "; seed " + j.Seed + "; mutation: " + j.Mut
 		known := r.rec.Violation(o.Sig, what, caseData{Entry: entryNames[j.Entry], DataB64: base64.StdEncoding.EncodeToString(j.Data), Seed: j.Seed, Mutation: j.Mut})
@@ -185,7 +185,7 @@ func (r *runner) drain() {
 // entriesFor: which entry points an input derived from seed s goes through.
 func entriesFor(s *seedEnc, kind string) []int {
 	if s.IsObj {
-		return []int{entObject}
+		return []int{entObject, entObjectPlain}
 	}
 	if kind == "sweep256" {
 		return []int{entDecodeFrom}
@@ -460,7 +460,7 @@ func genSampled(rt *rapid.T, bcs, objs []*seedEnc) job {
 	case rapid.IntRange(0, 9).Draw(rt, "anyentry") == 0:
 		entry = rapid.IntRange(0, nEntries-1).Draw(rt, "entry")
 	case isObj:
-		entry = entObject
+		entry = rapid.SampledFrom([]int{entObject, entObject, entObjectPlain}).Draw(rt, "entry")
 	default:
 		entry = rapid.SampledFrom([]int{entDecodeFrom, entDecodeFrom, entUnmarshal, entDecodeFromNil}).Draw(rt, "entry")
 	}
@@ -535,18 +535,18 @@ func (r *runner) replay(files []ev.ReplayFile) {
 
 func TestCheck(t *testing.T) {
 	rec := ev.New("C18")
-	rec.Rule = "valid encodings (47+ hand-written programs with source and builtin modules, hand-built Bytecodes incl. genuine v1 instruction streams, gob-fallback constants and multi-file file sets; ~160 single objects), each as version 2 and version-1-headed; per encoding EXHAUSTIVELY: every truncation, every position x {+1,-1,^0x80,0x00,0xFF}, every tag/size/length/count field (located by walking the format) rewritten to 2^7, 2^15, 2^31, 2^62-1, -1, and all 256 values at every byte of a tag/size/length field; then rapid-sampled double/multi-byte corruptions, two lengths rewritten, spliced encodings, insert/delete, arbitrary bytes, header+arbitrary, gob (tag 255) payloads. Oracle per input and entry point (DecodeBytecodeFrom with and without modules, (*Bytecode).UnmarshalBinary, DecodeObject), run in a worker subprocess under RLIMIT_AS: returns value or error; no panic; bytes allocated during the call <= 64*len+1MiB; no process death. Non-trivial = valid signature+version (known type tag for DecodeObject), distinct by sha1 of the input (256-value sweeps counted in classes only)"
+	rec.Rule = "valid encodings (47+ hand-written programs with source and builtin modules, hand-built Bytecodes incl. genuine v1 instruction streams, gob-fallback constants and multi-file file sets; ~160 single objects), each as version 2 and version-1-headed; per encoding EXHAUSTIVELY: every truncation, every position x {+1,-1,^0x80,0x00,0xFF}, every tag/size/length/count field (located by walking the format) rewritten to 2^7, 2^15, 2^31, 2^62-1, 2^63-1, -1, and all 256 values at every byte of a tag/size/length field; then rapid-sampled double/multi-byte corruptions, two lengths rewritten, spliced encodings, insert/delete, arbitrary bytes, header+arbitrary, gob (tag 255) payloads. Oracle per input and entry point (DecodeBytecodeFrom with and without modules, (*Bytecode).UnmarshalBinary, DecodeObject from a bytes.Reader and from a plain io.Reader), run in a worker subprocess under RLIMIT_AS: returns value or error; no panic; bytes allocated during the call <= 64*len+1MiB; no process death. Non-trivial = valid signature+version (known type tag for DecodeObject), distinct by sha1 of the input (256-value sweeps counted in classes only)"
 	rec.Assumptions = []string{
 		"a returned error is always acceptable; a successfully decoded Bytecode is not required to be valid and is not run",
 		"allocation = cumulative heap bytes allocated during the call (runtime/metrics /gc/heap/allocs:bytes, an excess is confirmed on a second run with runtime.MemStats.TotalAlloc)",
-		"an excess that the memory profile attributes to encoding/gob's message buffer (internal/saferio.ReadData, < 10 MiB, the standard library's own bound) is counted under excluded, not as a violation",
+		"bytes allocated inside encoding/gob on behalf of the gob fallback (tag 255) are not judged: gob allocates message buffers and slices of a declared length in chunks of up to 10 MiB (internal/saferio) before the data is there; when the bound is exceeded the memory profile decides who allocated, and only bytes allocated outside encoding/gob are held against 64*len+1MiB (such cases are counted under excluded)",
 		"a worker death counts only when it reproduces on that input alone in a fresh process and the runtime printed a fatal error (out of memory, stack overflow); anything else is inconclusive",
 	}
 	defer func() { rec.Flush(!t.Failed() || rec.HasUnknown()) }()
 
 	seeds, err := buildSeeds()
 	if err != nil {
-		t.Fatalf("harness problem, not a C18 result: %v", err)
+		t.Fatalf("HARNESS: %v", err)
 	}
 	nowalk := []string{}
 	for _, s := range seeds {
@@ -611,7 +611,7 @@ func TestCheck(t *testing.T) {
 	if shards > 1 {
 		workers = envInt("VERIF_C18_WORKERS", 1)
 	}
-	budget := time.Duration(envInt("VERIF_C18_BUDGET_S", map[string]int{"quick": 38, "thorough": 900}[ev.Tier()])) * time.Second
+	budget := time.Duration(envInt("VERIF_C18_BUDGET_S", map[string]int{"quick": 26, "thorough": 900}[ev.Tier()])) * time.Second
 	start := time.Now()
 
 	// this shard's seeds, rotated by the seed so that a budget cut hits different seeds in different runs
@@ -686,7 +686,7 @@ func fuzzOracle(t *testing.T, entries []int, data []byte) {
 func FuzzDecodeBytecode(f *testing.F) {
 	seeds, err := buildSeeds()
 	if err != nil {
-		f.Fatalf("harness problem: %v", err)
+		f.Fatalf("HARNESS: %v", err)
 	}
 	for _, s := range seeds {
 		if !s.IsObj {
@@ -701,7 +701,7 @@ func FuzzDecodeBytecode(f *testing.F) {
 func FuzzDecodeObject(f *testing.F) {
 	seeds, err := buildSeeds()
 	if err != nil {
-		f.Fatalf("harness problem: %v", err)
+		f.Fatalf("HARNESS: %v", err)
 	}
 	for _, s := range seeds {
 		if s.IsObj {
@@ -709,6 +709,6 @@ func FuzzDecodeObject(f *testing.F) {
 		}
 	}
 	f.Fuzz(func(t *testing.T, data []byte) {
-		fuzzOracle(t, []int{entObject}, data)
+		fuzzOracle(t, []int{entObject, entObjectPlain}, data)
 	})
 }
